@@ -112,7 +112,11 @@ func (cs *Case) Do(op string) string {
 		return "dead"
 	}
 	obs := safeDo(cs.r, op, cs.c.OpTimeout)
-	if strings.HasPrefix(obs, "panic") || obs == "hang" {
+	if strings.HasPrefix(obs, "panic") {
+		cs.c.Stats.Notes = append(cs.c.Stats.Notes, fmt.Sprintf("case %d: %s", cs.N, obs))
+		obs = "panic" // panic messages are not compared with the model
+	}
+	if obs == "panic" || obs == "hang" {
 		cs.dead = true
 	}
 	cs.c.record(op, obs)
